@@ -720,6 +720,9 @@ func (fr *Frame) loopWrites(li *loopInfo) (names map[string]bool, all bool) {
 	// (the anchor may match an instruction of the body); without this the invariant would be assumed over the entry value
 	if fr.fc != nil && fr.depth == 0 {
 		for _, gh := range fr.fc.Ghosts {
+			if !fr.anchorMayMatchIn(gh.Anchor, li) {
+				continue // no instruction of the body can carry this anchor: the loop does not write the ghost through it
+			}
 			if gv, ok := fr.g.P.db.GhostVars[gh.Var]; ok {
 				env := fr.envAt(fr.entry, nil, 0)
 				env.ghostVal(gv)
@@ -744,6 +747,64 @@ func (fr *Frame) loopWrites(li *loopInfo) (names map[string]bool, all bool) {
 		}
 	}
 	return
+}
+
+// anchorMayMatchIn: may an instruction of the loop body carry the anchor? Conservative: the ordinal `#k` is ignored (ordinals
+// are assigned in translation order), non-call anchors match any instruction of their kind.
+func (fr *Frame) anchorMayMatchIn(anchor string, li *loopInfo) bool {
+	a := strings.ReplaceAll(strings.Join(strings.Fields(anchor), " "), modPath+"/", "")
+	if k := strings.LastIndex(a, "#"); k >= 0 {
+		digits := k+1 < len(a)
+		for _, c := range a[k+1:] {
+			if c < '0' || c > '9' {
+				digits = false
+			}
+		}
+		if digits {
+			a = a[:k]
+		}
+	}
+	if a == "entry" {
+		return false
+	}
+	kind := a
+	if i := strings.Index(a, " "); i >= 0 {
+		kind = a[:i]
+	}
+	for idx := range li.body {
+		for _, in := range fr.fn.Blocks[idx].Instrs {
+			switch x := in.(type) {
+			case ssa.CallInstruction:
+				if kind == "delete" {
+					if b, ok := x.Common().Value.(*ssa.Builtin); ok && b.Name() == "delete" {
+						return true
+					}
+				}
+				if kind == "call" {
+					if anchorMatches(a, []string{"call " + shortCallee(calleeName(x.Common()))}) {
+						return true
+					}
+				}
+			case *ssa.Store:
+				if kind == "store" {
+					return true
+				}
+			case *ssa.MapUpdate:
+				if kind == "mapupdate" {
+					return true
+				}
+			case *ssa.Return:
+				if kind == "return" {
+					return true
+				}
+			}
+		}
+	}
+	switch kind {
+	case "call", "delete", "store", "mapupdate", "return":
+		return false
+	}
+	return true // unknown anchor kind: assume it may match
 }
 
 func (fr *Frame) enterLoop(li *loopInfo, b *ssa.BasicBlock, reach string, st *State, phiVals map[*ssa.Phi]Val) error {
